@@ -33,24 +33,24 @@ CHECKS = {
          "TLC replays the log on StagedStore.tla whose reads are defined as the same read on db-with-staged-ops-applied and compares every result, the db dump after Commit with the model and after RevertDiff with the previous contents.",
          "Keys over a 4-letter byte alphabet up to length 5, values empty or one byte; limit 0 not generated; operation sequences are sampled (seeded).",
          "TLA+ trace validation (TLC monitor) of recorded calls on the real staged store", "DESIGN.md section 4 C12"),
- "C10": ("model_checking Tampered proofs include forged inclusions claimed deeper than the honest end of the walk with junk sibling hashes in front or spread over the list, and queries repeating or shadowing another query's position (two defects of Verify found and repaired this way). A crash of the trie on a goroutine of its own is reported as a violation and pinned to its history by a serial re-run.",
+ "C10": ("model_checking",
          "SMT.tla defines the LIP-0039 root as a term Tree(M) of the map alone; TLC enumerates update/delete/reopen histories (exhaustively for depth 2-3 over 6 hand-placed 16-bit keys, "
          "by simulation to depth 8-10 over 10 keys), checks the spec invariants and prints each history with the expected root term and query walks; the harness replays every history on the real trie "
          "(raw 2-byte and 32/38-byte embedded keys, map store and pebble), compares roots after every batch, proves and verifies query sets, compares proof contents with the spec walk and "
-         "requires every tampered proof whose claim disagrees with the map (or with another root's map) to be rejected.",
+         "requires every tampered proof whose claim disagrees with the map (or with another root's map) to be rejected. Tampered proofs include forged inclusions claimed deeper than the honest end of the walk with junk sibling hashes in front or spread over the list, and queries repeating or shadowing another query's position (two defects of Verify found and repaired this way). A crash of the trie on a goroutine of its own is reported as a violation and pinned to its history by a serial re-run.",
          "Hash injectivity; 16-bit key patterns embedded in longer keys; duplicate keys inside a batch not generated. One open known finding (forged query shadowed by another query of the same proof).",
          "TLC-generated histories of a TLA+ term model replayed on the real trie (SHA-256 fold of the expected term)", "DESIGN.md section 4 C10"),
- "C11": ("model_checking The walk continues to 1100 (thorough 4200) leaves; beyond 40 (140) the sizes next to powers of two and a sparse sample are replayed (found the prediction panic above 256 leaves).",
+ "C11": ("model_checking",
          "RMT.tla: TLC checks the incremental append rule against the declarative LIP-0031 root/append path for every size 0..40 (140 thorough) and exports root/append-path terms; the harness compares "
          "Append, CalculateRoot, reload, GenerateProof/VerifyProof (all non-empty leaf subsets of lists up to 7 (9) leaves + sampled subsets of larger lists, shuffled query order, reuse of a proof), "
-         "CalculateRootFromUpdateData, Update, right witnesses at every position and CalculateRootFromAppendPath with the folded terms, and requires tampered leaves/roots/witnesses to be rejected.",
+         "CalculateRootFromUpdateData, Update, right witnesses at every position and CalculateRootFromAppendPath with the folded terms, and requires tampered leaves/roots/witnesses to be rejected. The walk continues to 1100 (thorough 4200) leaves; beyond 40 (140) the sizes next to powers of two and a sparse sample are replayed (found the prediction panic above 256 leaves).",
          "Hash injectivity; pairwise distinct leaf data.",
          "TLC-checked TLA+ term model (incremental = batch = declarative) + comparison of the real tree with the exported terms", "DESIGN.md section 4 C11"),
- "C03": ("model_checking Every mutant is offered twice: through process() (fork choice first) and through processValidated, the entry point of blocks downloaded by a synchronisation, there with an application that executes whatever it is handed so that only the engine's own rules stand; mutations include a maxHeightGenerated claim that denies the generator's latest block and fields only the signature protects.",
+ "C03": ("model_checking",
          "Node.tla models the engine (chain, LiskBFT vote state per block, finalized height, temp blocks, events) with Accept(c) = the conjunction of every validity rule of the statement; "
          "TLC checks its properties exhaustively (chains <= 5-6 blocks, one parameter change) and generates scripts by simulation; the harness replays every step on the real Executer with a toy application "
          "(state/events compared after each step) and submits, at the end of every script, each of 28 single-rule mutants of the valid successor (header fields, slot, generator, signature, maxHeightPrevoted/Generated, "
-         "7 aggregate-commit deviations, roots, validatorsHash, static tx validity, payload size): each must be rejected leaving the full database dump, BFT heights and published events unchanged.",
+         "7 aggregate-commit deviations, roots, validatorsHash, static tx validity, payload size): each must be rejected leaving the full database dump, BFT heights and published events unchanged. Every mutant is offered twice: through process() (fork choice first) and through processValidated, the entry point of blocks downloaded by a synchronisation, there with an application that executes whatever it is handed so that only the engine's own rules stand; mutations include a maxHeightGenerated claim that denies the generator's latest block and fields only the signature protects.",
          "Toy application instead of pkg/framework; 3 validators; scripts sampled by TLC simulation (seeded); time pinned mid-slot; cryptography trusted.",
          "TLC-generated scripts and single-rule mutants of a TLA+ node model replayed on the real Executer", "DESIGN.md section 4 C03"),
  "C05": ("model_checking",
@@ -74,10 +74,10 @@ CHECKS = {
          "height index -> data, consensus store height = tip, diff iff block, finalized <= tip) is validated by CrashTrace.tla. Step kinds: block, delete, delete+temp, restore (re-application of a temporary block with removal of its temporary copy, as after a failed chain switch).",
          "pebble batch atomicity and StrictMem's model of sync are trusted (torn WAL records not modelled); the toy application's state is rebuilt from headers at restart.",
          "crash-point enumeration on the real node over a strict in-memory file system, records validated by a TLA+ trace monitor", "DESIGN.md section 4 C13"),
- "C06": ("model_checking A second configuration with 8 validators (aggregation bitmap on a byte boundary) runs straight chains to finality with a signer family that brackets every threshold.",
+ "C06": ("model_checking",
          "Certificate.tla (on Node.tla) prints, for node states reached by TLC-generated scripts (finality, on-chain aggregate commits, validator-set changes, 4 validators with weights 4/3/2/1), the verdict table of aggregate-commit verification over "
          "every height 0..tip+1 x every signer subset x {valid, signed for another chain, certificate of another block}, every set of certifying validators, and every single commit with 'may enter the pool'. The harness evaluates the real "
-         "verifyAggregateCommit with real BLS on every row, tampers aggregation bits, feeds single commits through singleCommitValidator (admission soundness) and requires GetAggregateCommit after Certify + gossip to pass the node's own verification.",
+         "verifyAggregateCommit with real BLS on every row, tampers aggregation bits, feeds single commits through singleCommitValidator (admission soundness) and requires GetAggregateCommit after Certify + gossip to pass the node's own verification. A second configuration with 8 validators (aggregation bitmap on a byte boundary) runs straight chains to finality with a signer family that brackets every threshold.",
          "blst trusted; chains <= 10 blocks (first 100 heights); pool admission judged for soundness only.",
          "TLC-generated verdict tables of a TLA+ node/certificate model evaluated on the real Executer with real BLS", "DESIGN.md section 4 C06"),
  "C14": ("model_checking",
@@ -100,16 +100,16 @@ CHECKS = {
          "for 3 honest nodes; TLC checks NeverWorse / Agreement exhaustively and its scripts are replayed on 3 real nodes over loopback, the acted-on node compared with the model after every step.",
          "3 validators; toy application; scenarios sampled (seeded); malformed sync requests belong to C09/C18.",
          "TLC-generated selection table + TLA+ trace monitor of real handler calls and real sync scenarios between in-process nodes", "DESIGN.md section 4 C19"),
- "C18": ("model_checking Rate-focused schedules put both addresses on one procedure inside one rate window (a penalty of one peer must not change the count of another).",
+ "C18": ("model_checking",
          "ConnGater.tla: per-IP score / ban expiry / blacklist, integer clock, separate Sweep action (either answer allowed between expiry and the sweep), rate limiter with window resets; TLC checks ThresholdBans, BannedRefused, BlockedRefused, SweptClean, "
          "WithinLimitNeverPenalised, AboveLimitPenalised etc. exhaustively (2 IPs incl. IPv6, penalties 10/50/100; 375 k + 979 k states) and generates schedules; every schedule is replayed on real connectionGater / rateLimit objects (1 tick = 2 s, actions mid-second with guard bands, "
-         "timing misses = inconclusive) comparing score, ban list and all gate answers after every step; 13 loopback scenarios on real libp2p hosts (malformed envelope, unknown procedure, rate excess, BanPeer, blacklist: disconnect, refused re-dial both directions, acceptance after expiry).",
+         "timing misses = inconclusive) comparing score, ban list and all gate answers after every step; 13 loopback scenarios on real libp2p hosts (malformed envelope, unknown procedure, rate excess, BanPeer, blacklist: disconnect, refused re-dial both directions, acceptance after expiry). Rate-focused schedules put both addresses on one procedure inside one rate window (a penalty of one peer must not change the count of another).",
          "Real-time mapping with guard bands; the sweep interval of a running Connection is the 10 s constant; InterceptUpgraded not exercised.",
          "TLC model checking of ConnGater.tla + replay of TLC schedules on the real gater / rate limiter + loopback scenarios", "DESIGN.md section 4 C18"),
- "C20": ("model_checking A reader that obtained a tip also looks up what the tip announces in the database (a complete COMMITTED tip); a harness process killed by a fatal error inside lisk-engine (concurrent map access) is reported as a violation.",
+ "C20": ("model_checking",
          "Locks.tla interprets lock programs extracted from the CURRENT sources by a go/ast extractor (57 programs: blockCache, DataAccess bulk lookups, certificate.Pool, EventEmitter, diffdb views, block-sync collector) under Go RWMutex semantics (a waiting writer blocks new readers): "
          "NoDeadlock, NoRace (lockset), ExactlyOnce (lost update) checked exhaustively per scenario. Every prediction is only a verdict once reproduced on the real code by the stress driver (readers vs a real Executer writer, bulk lookups with multiset checks, pool, emitter, diffdb; watchdog + goroutine dump) in a normal and a -race build; "
-         "observed-but-unmodelled failures are violations too, predicted-but-not-reproduced ones are logged.",
+         "observed-but-unmodelled failures are violations too, predicted-but-not-reproduced ones are logged. A reader that obtained a tip also looks up what the tip announces in the database (a complete COMMITTED tip); a harness process killed by a fatal error inside lisk-engine (concurrent map access) is reported as a violation.",
          "The Go memory model is not specified in TLA+ (the race detector is the implementation-side recorder); stress durations bound what is reproduced.",
          "go/ast lock-program extraction + TLC (Locks.tla) + stress/-race reproduction on the real code", "DESIGN.md section 4 C20"),
  "C09": ("exploration",
@@ -118,20 +118,20 @@ CHECKS = {
          "onRequest/onResponse, sync and txpool RPC handlers and response decoders, verifyAggregateCommit, process(), smt/rmt/BLS/ed25519 verifiers) under recover(), a 2 s deadline and an allocation ceiling, in a supervised child process.",
          "Absence of panics/hangs is established for the enumerated and sampled inputs only; Go memory safety, time and allocation are observed, not modelled; JSON-RPC server and libp2p itself are not fuzzed.",
          "TLA+-enumerated malformation model + exhaustive short inputs executed against all decoders/verifiers under recover/deadline/allocation monitors", "DESIGN.md section 4 C09"),
- "C15": ("model_checking Verification answers are ok / invalid / pending; the aggregate commit of a generated block is covered by the C06 pool cases (whatever GetAggregateCommit assembles must pass the node's own verification, incl. validator-set changes with lagging certification).",
+ "C15": ("model_checking",
          "Generator.tla: Select(pool, limit) as the set of admissible payloads (TLC enumerates all pools of <= 3 transactions x outcomes x limits: 5 484 pools, 35 904 real selections compared); generator behaviours on top of Node.tla (Forge with crash, Recv, Switch to a better possibly shorter chain, Restart) with "
          "NoSelfContradiction, MhgLargestEver, PersistedBeforeHandoff, ForgeOutputAccepted (56 k states; control runs with the defective shapes must fail); scripts are replayed on a real generator.Generator wired to the real Executer and txpool, generator DB on a strict in-memory FS (crash at hand-off), every produced block processed by the same node, "
-         "all signed headers checked pairwise for contradiction.",
+         "all signed headers checked pairwise for contradiction. Verification answers are ok / invalid / pending; the aggregate commit of a generated block is covered by the C06 pool cases (whatever GetAggregateCommit assembles must pass the node's own verification, incl. validator-set changes with lagging certification).",
          "Toy application; 3 validators; crash after hand-off is C13's subject.",
          "TLC model checking of Generator.tla + replay of TLC scripts on the real generator / Executer / txpool", "DESIGN.md section 4 C15"),
- "C16": ("model_checking The module's BeforeCommandExecute hook writes state and logs a revertible event: both must survive a failing command (the state 'before the command ran' is the state after the hooks).",
+ "C16": ("model_checking",
          "StateMachine.tla: application state over 2 stores x 3 keys, command scripts (writes, events, ok/fail), ExecuteTx / Commit (root = SMT.Tree of the state, deleted keys absent) / Revert / Crash+Restart; Atomic, EventsBookkeeping, RootFunctionOfState, RevertInverse checked exhaustively (243 k states quick, 4.9 M thorough); "
-         "~25 k histories replayed on the real framework.ABIHandler + statemachine.Executer with a scripted module using the engine's exact call sequences; events, store contents, state-DB dumps and state roots (SHA-256 fold of the spec term) compared after every step.",
+         "~25 k histories replayed on the real framework.ABIHandler + statemachine.Executer with a scripted module using the engine's exact call sequences; events, store contents, state-DB dumps and state roots (SHA-256 fold of the spec term) compared after every step. The module's BeforeCommandExecute hook writes state and logs a revertible event: both must survive a failing command (the state 'before the command ran' is the state after the hooks).",
          "Genesis execution and applications more than one block ahead are not modelled; empty values not generated.",
          "TLC model checking of StateMachine.tla + replay of TLC histories on the real ABIHandler", "DESIGN.md section 4 C16"),
- "C17": ("model_checking The forced lost-reply schedule counts a reply dropped before registration as well as one that found its pending entry and still let the attempt time out; schedules that cannot be established on a busy machine are retried.",
+ "C17": ("model_checking",
          "ReqResp.tla with implementation-shape constants (RegisterFirst, DeliverUnderLock, Buffered, TrySend): NoDeadlock, NoLostReply, Correlated, NoLeak, liveness under fairness checked exhaustively for the shape the traces exhibit and the safe shape (181 k states at 2 calls x 1 retry); "
-         "two real MessageProtocols on loopback with schedule-point hooks: random concurrent traffic (latencies around the timeout, cancellations, duplicates) validated by ReqRespTrace.tla, direct assertions (every call returns in time with the payload of its own request, no pending entry left), and forced schedules for the lost-reply and deliver-under-lock interleavings decided from the real outcome.",
+         "two real MessageProtocols on loopback with schedule-point hooks: random concurrent traffic (latencies around the timeout, cancellations, duplicates) validated by ReqRespTrace.tla, direct assertions (every call returns in time with the payload of its own request, no pending entry left), and forced schedules for the lost-reply and deliver-under-lock interleavings decided from the real outcome. The forced lost-reply schedule counts a reply dropped before registration as well as one that found its pending entry and still let the attempt time out; schedules that cannot be established on a busy machine are retried.",
          "Timing uses generous slack; forced schedules that cannot be established are inconclusive; retry count is read-only.",
          "TLC model checking of ReqResp.tla + trace validation and hook-forced schedules on real loopback hosts", "DESIGN.md section 4 C17"),
 }
